@@ -145,6 +145,8 @@ class Purity:
                 return
         if cn[0] in PURE_MODULES and cn[0] not in local:
             return
+        if len(cn) == 2 and cn[0] in ("tuple", "frozenset", "object", "int", "str", "dict", "list", "set", "float", "bytes", "type") and cn[0] not in local:
+            return  # a builtin type's own method (tuple.__new__, tuple.__eq__, dict.fromkeys, ...)
         # names imported from impure modules (from random import randint)
         if len(cn) == 1:
             imp = fi.module.imports.get(cn[0])
